@@ -57,6 +57,15 @@ def judge_c16(plan, result):
         is_arch = isinstance(mdl, models.LayerDefModel)
         if op["op"] == "call":
             st["calls"] += 1
+            if not is_arch and op["m"] == "based_on":
+                ref = (op.get("a") or [{}])[0]
+                amdl = model.get(ref.get("$obj")) if isinstance(ref, dict) else None
+                if not isinstance(amdl, models.LayerDefModel) or amdl.pending() or not amdl.layers:
+                    # a rule based on an unfinished, rejected or empty definition: C16 says
+                    # nothing about it (only reachable through plan minimisation)
+                    st["skipped"] += 1
+                    del model[obj]
+                    continue
             verdict, reason = mdl.classify(op["m"], op.get("a") or [])
             outcome = "rej" if res["r"] == "exc" else "acc"
             kind = "arch" if is_arch else "lrule"
@@ -339,8 +348,10 @@ def judge_c13(plan, result):
             a = op.get("a") or []
             args = [x["$obj"] if isinstance(x, dict) and "$obj" in x else
                     x["$puml"] if isinstance(x, dict) and "$puml" in x else x for x in a]
-            if fam[obj] == "layer" and op["m"] == "based_on" and args and args[0] not in arch_layers:
-                del spec[obj]  # based on something the judge has no definition for
+            if fam[obj] == "layer" and op["m"] == "based_on" and args and (
+                    args[0] not in arch_layers or args[0] not in archdefs
+                    or archdefs[args[0]].pending()):
+                del spec[obj]  # based on an unknown, rejected or unfinished definition: unspecified
                 continue
             try:
                 before = sp.state_key() if hasattr(sp, "state_key") else fam[obj]
